@@ -63,12 +63,91 @@ def routing_part(ctx):
             ctx.violation('run_type_assignment and its model disagree', desc, no_input=True)
 
 
+def _records_problem(sc_levels, cell_ids, results):
+    """one record per query cell, in order, every level present"""
+    if results is None:
+        return 'no results'
+    ids = [r.get('cell_id') for r in results]
+    if ids != list(cell_ids):
+        return f'cell ids / order {ids[:6]}... ({len(ids)}) differ from the query file {list(cell_ids)[:6]}... ({len(cell_ids)})'
+    for r in results:
+        for lv in sc_levels:
+            if lv not in r or 'assignment' not in r[lv]:
+                return f'cell {r.get("cell_id")} lacks level {lv}'
+    return None
+
+
+def sequences_and_direct_calls(ctx):
+    """(iii) the assignment stage called directly, with the in-memory hand-back and with the result buffer, for 1..3
+    workers; (iv) two queries mapped one after the other in this process from the SAME path (the file replaced in
+    between: other cells, another number of cells, another order): the second result must be the second file's."""
+    from harness import paired, pipeline
+    import numpy as np
+    rng = ctx.rng
+    for k in range(ctx.n(3, 30)):
+        sc = pipeline.gen_scenario(rng, max_levels=3, max_leaves=6, n_cells=rng.randrange(7, 16))
+        n = len(sc.cell_ids)
+        desc = {'kind': 'direct-assignment', 'tree': sc.tree.data, 'markers': sc.markers, 'cell_ids': sc.cell_ids,
+                'query': np.asarray(sc.query).tolist(), 'ref_genes': sc.ref_genes, 'query_genes': sc.query_genes,
+                'means': {str(a): b for a, b in sc.means.items()}}
+        for npr in (1, 2, 3):
+            for on_disk in (False, True):
+                cs = rng.randrange(1, n + 2)
+                r = paired.assign_direct(ctx, sc, f'dir{k}_{npr}_{int(on_disk)}', n_processors=npr, chunk_size=cs, on_disk=on_disk,
+                                         seed=rng.randrange(1, 10 ** 6))
+                ctx.count(('direct', k, npr, on_disk), nontrivial=True)
+                ctx.dist('direct_assignment', f'workers={npr} {"buffer" if on_disk else "in-memory"}')
+                bad = None
+                if not r['ok']:
+                    bad = f'raised {r["error"]}'
+                else:
+                    bad = _records_problem(sc.tree.levels, sc.cell_ids, r['results'])
+                if bad:
+                    ctx.disagreements_checked += 1
+                    dd = dict(desc, n_processors=npr, chunk_size=cs, results_output_path=bool(on_disk))
+                    dd['class'] = 'c01-direct-assignment'
+                    ctx.violation(f'run_type_assignment_on_h5ad called directly ({npr} worker(s), chunk size {cs}, '
+                                  f'{"result buffer" if on_disk else "in-memory hand-back"}): {bad}', dd)
+        # (iv) same path, same process, file replaced
+        m2 = rng.choice([n, n, rng.randrange(3, 22)])          # same number of cells, or another
+        q2 = np.asarray(sc.query)[[rng.randrange(n) for _ in range(m2)], :]
+        ids2 = rng.sample(list(sc.cell_ids), n) if (m2 == n and rng.random() < 0.5) else \
+            [f'z{i:03d}' for i in rng.sample(range(500), m2)]
+        var = paired.base_var(rng, sc, factor=0.5)
+        var['min_markers'] = 1
+        steps = [dict(query=np.asarray(sc.query), cell_ids=list(sc.cell_ids), encoding=rng.choice(['dense', 'csr', 'csc'])),
+                 dict(query=q2, cell_ids=ids2, encoding=rng.choice(['dense', 'csr', 'csc']))]
+        res = paired.run_history_same_path(ctx, sc, f'hist{k}', steps, **var)
+        fresh = paired.run_once(ctx, sc, f'hist{k}_fresh', query=q2, cell_ids=ids2, encoding=steps[1]['encoding'], tmp_dir=None, **var)
+        ctx.count(('history', k), nontrivial=True)
+        ctx.dist('history_same_path', f'{len(sc.cell_ids)}->{len(ids2)} cells')
+        dd = dict(desc, kind='history-same-path', second_cell_ids=ids2, second_query=q2.tolist(), config=var)
+        if not (res[0]['ok'] and res[1]['ok'] and fresh['ok']):
+            ctx.disagreements_checked += 1
+            dd['class'] = 'c01-run-raises'
+            ctx.violation(f'a run of the sequence raised: {res[0]["error"] or res[1]["error"] or fresh["error"]}', dd)
+            continue
+        bad = _records_problem(sc.tree.levels, ids2, res[1]['output']['results'])
+        if bad is None:
+            a, b = paired.by_cell(res[1]), paired.by_cell(fresh)
+            for cid in ids2:
+                diff = paired.compare_records(a[cid], b[cid], sc.tree.levels, bitwise=True)
+                if diff:
+                    bad = f'cell {cid} differs from the run in a fresh process state: {diff}'
+                    break
+        if bad:
+            ctx.disagreements_checked += 1
+            dd['class'] = 'c01-second-run-on-replaced-file'
+            ctx.violation(f'the same path mapped twice in one process, the file replaced in between: second result: {bad}', dd)
+
+
 def run(ctx):
     ctx.rule = ('(i) run_type_assignment with _run_type_assignment replaced by a table-driven oracle on every tree shape '
                 'with <=4 levels and <=4 (quick) / <=6 (thorough) leaves plus random larger trees, random cell sets and '
                 'choices; non-trivial = >=2 levels and some parent with >=2 children, distinct by (shape, cell ids)')
     routing_part(ctx)
     mapcheck.run_batch(ctx, ctx.n(25, 400), ('c01-', 'corr:Chunk'), 'map', raise_is_violation=True)
+    sequences_and_direct_calls(ctx)
 
 
 def replay(ctx, rec):
